@@ -12,12 +12,11 @@
       mappings to sample, `ceil(|X|^a * log(|X|+1)^b)` — a float computation that only decides
       *how many* permutations there are) and the list of first images; `findUb`/`estimate` receive
       one such pair per direction;
-    * `keyMul len diam` = the product `len(K) * diam_X` of `find_largest_size_bounded_curvature`
-      *as the tree under test computes it*: exactly (`len(K) * int(diam_X)`, the repaired code;
-      `wrapMul 64`) or in the dtype of the distance matrix (the unrepaired code: `diam_X` is an
-      `np.int8` scalar for graphs of diameter ≤ 127, so under NumPy 2 the product wraps modulo 2^8
-      — `wrapMul 8` — and is an `OverflowError` once `len(K) ≥ 128`, see `keyMulOld`).  The
-      theorems hold for every `keyMul`.
+    * `keyMul len diam` = the product `len(K) * int(diam_X)` of
+      `find_largest_size_bounded_curvature`.  The driver runs the model with the exact product
+      (`exactMul`, what the repaired code computes); the theorems hold for *every* `keyMul`, so they
+      also cover the unrepaired `Python int * np.int8` product (`wrapMul 8`, `keyMulOld`), which
+      only makes the sort keys — and therefore which rows are dropped — arbitrary.
 
   The model rejects what the code rejects: an empty permutation list is `StopIteration`
   (`Err.stopIteration`); an index outside a matrix is `IndexError` (`Err.index`; the driver checks
@@ -313,6 +312,48 @@ def wrapMul (bits : Nat) (len diam : Nat) : Int :=
     `OverflowError` when the Python int `len(K)` does not fit int8, silent wrap-around otherwise -/
 def keyMulOld (len diam : Nat) : Except Err Int :=
   if len > 127 then .error .overflow else .ok (wrapMul 8 len diam)
+
+/-! ### the unrepaired feasibility test (regression witness only)
+
+  Before the repair `d` reached `check_assignment_feasibility` as an `np.int8` scalar, so under
+  NumPy 2 the upper window end `i + (d - 1)` was evaluated in int8 and wrapped beyond 127. -/
+
+/-- reduce an integer into the signed `bits`-bit range -/
+def wrapInt (bits : Nat) (x : Int) : Int :=
+  let m : Int := (2 : Int) ^ bits
+  let h : Int := (2 : Int) ^ (bits - 1)
+  ((x + h) % m) - h
+
+def nextJOld (w : Nat) (ru : List Nat) (i minJ : Nat) : Option Nat :=
+  firstPos ru minJ (min (wrapInt 8 ((i + w : Nat) : Int)) ((ru.length : Int) - 1) + 1).toNat
+
+def nextIAndJOld (w : Nat) (rv ru : List Nat) (minI minJ : Nat) : Option Nat × Option Nat :=
+  match firstPos rv minI rv.length with
+  | none => (none, some minJ)
+  | some i => (some i, nextJOld w ru i (max (i - w) minJ))
+
+def feasLoopOld (w : Nat) : Nat → List Nat → List Nat → Nat → Nat → Bool
+  | 0, _, _, _, _ => true
+  | fuel + 1, rv, ru, i, j =>
+    if rv.getD i 0 ≤ ru.getD j 0 then
+      match nextIAndJOld w (rv.set i 0) (ru.set j (ru.getD j 0 - rv.getD i 0)) i j with
+      | (none, _) => true
+      | (some _, none) => false
+      | (some i', some j') =>
+        feasLoopOld w fuel (rv.set i 0) (ru.set j (ru.getD j 0 - rv.getD i 0)) i' j'
+    else
+      match nextJOld w (ru.set j 0) i j with
+      | none => false
+      | some j' => feasLoopOld w fuel (rv.set i (rv.getD i 0 - ru.getD j 0)) (ru.set j 0) i j'
+
+/-- `check_assignment_feasibility` of the unrepaired code for an int8 `d` -/
+def checkAssignmentFeasibilityOld (v u : List Nat) (d : Nat) : Bool :=
+  let rv := v.reverse
+  let ru := u.reverse
+  match nextIAndJOld (d - 1) rv ru 0 0 with
+  | (none, _) => true
+  | (some _, none) => false
+  | (some i, some j) => feasLoopOld (d - 1) (rv.length + ru.length + 1) rv ru i j
 
 /-! ### exhaustive reference values (used by the driver ops `mgh.spec`, `mgh.feas.exh`) -/
 
